@@ -28,7 +28,10 @@ type Op struct {
 	// blocks inside (found by stack inspection) and is woken, deterministically, at the first scheduling point at which
 	// Guard holds again; if the call does not use that mutex it simply runs inside the other call's critical section.
 	Eager bool
-	Call  func() string
+	// NotBefore: the op is not started before this many yield points of the whole run have passed (unless nothing else
+	// can run): spreads the start of a call uniformly over another worker's long call instead of near its beginning.
+	NotBefore int
+	Call      func() string
 }
 
 type worker struct {
@@ -300,7 +303,7 @@ func (s *Sched) Run() {
 				s.await(w)
 			}
 		}
-		var enabled []*worker
+		var enabled, delayed []*worker
 		alive := 0
 		contended := false
 		for _, w := range s.workers {
@@ -312,12 +315,20 @@ func (s *Sched) Run() {
 				continue
 			}
 			if w.atOp {
-				if op := w.ops[w.opIdx]; op.Guard != nil && !op.Eager && !op.Guard() {
+				op := w.ops[w.opIdx]
+				if op.Guard != nil && !op.Eager && !op.Guard() {
 					contended = true
+					continue
+				}
+				if op.NotBefore > s.Yields {
+					delayed = append(delayed, w)
 					continue
 				}
 			}
 			enabled = append(enabled, w)
+		}
+		if len(enabled) == 0 {
+			enabled = delayed // nothing else can run: the delay is over
 		}
 		if alive == 0 {
 			return
